@@ -514,16 +514,24 @@ class Evaluator:
                     static = False
                     break
             if static:
+                st.effects = list(sub.effects)  # effects of the unrolled element expressions, in order
                 return mk_list(out, e)
+            sub = st.copy()
+        base_e = len(st.effects)
         elem = App("elem", (it,), gen.iter)
         self.bind_target(gen.target, elem, sub, fr)
         conds = [self.eval_expr(c, sub, fr) for c in gen.ifs]
         if len(e.generators) > 1:
             return App("comp:" + kind, (Const(ast.unparse(e)),), e)
+        n_cond_eff = len(sub.effects)
         if kind == "dict":
             body = App("kv", (self.eval_expr(e.key, sub, fr), self.eval_expr(e.value, sub, fr)))
         else:
             body = self.eval_expr(e.elt, sub, fr)
+        inner = list(sub.effects[base_e:n_cond_eff]) + [App("eff:assume", (c,), e) for c in conds] + list(sub.effects[n_cond_eff:])
+        if len(sub.effects) > base_e:
+            # a comprehension whose element / condition has effects (calls, pops) is a loop over the iterable
+            st.effects.append(App("eff:loop", (it, App("seq", inner)), e))
         return App("comp:" + kind, (body, it, App("conds", conds)), e)
 
     def iter_items(self, it):
